@@ -50,6 +50,8 @@ Definition agree (c : case) : bool :=
              Bool.eqb (fst p) (o_fin o) && (c_stress c || negb (fst p) || res_match (snd p) (o_res o)))
           pred (c_obs c)
   && Bool.eqb lf (c_lock_free c)
+  (* the implementation reached the predicted stable state after every command within the watchdog *)
+  && ((c_timeouts c =? 0)%nat || negb (forallb fst pred))
   (* and no request returned before the command after which the interpreter can have it returned *)
   && (c_stress c ||
       zip_all (fun (d : nat) (o : obs) => negb (o_fin o) || (d =? 0)%nat || (d <=? o_done_at o)%nat)
